@@ -65,7 +65,10 @@ ROUTES = ["profile_api", "genotype_api", "cli", "options", "options_explicit", "
           "profile_api", "genotype_api", "cli", "options", "options_explicit", "roundtrip", "dump", "profile_cli",
           "exome"]
 MALFORMED = [("gap", "abc"), ("phase", "maybe"), ("min_quality", "x"), ("cn_max", "1.5x"), ("male", "2"),
-             ("threshold", ""), ("indelpost", "no-way")]
+             ("threshold", ""), ("indelpost", "no-way"),
+             # a number with a fraction for a whole-number parameter (native in the interface and in an options
+             # section, text on the command line): not "the given value" if taken, so it has to be refused
+             ("min_quality", 12.7), ("cn_max", 10.5), ("max_minor_solutions", 1.5), ("min_mapq", "7.5")]
 
 
 def spell(rng, typ, v, strings_only):
@@ -155,11 +158,17 @@ def gen_plan(rng, tier, i, seed):
             # names that are no model parameters but mean something else to the program (arguments of the run,
             # fields of the profile object): unknown names all the same
             pool = ["name", "data"] if route in ("options", "options_explicit", "profile_api", "roundtrip") else \
-                ["debug", "report", "solver", "genome", "name", "data", "is_simple"]
+                ["debug", "report", "solver", "genome", "name", "data", "is_simple", "output_file", "gene_db",
+                 "profile_name", "sam_path", "multiple_warn_level"]
             extra = ["unknown", rng.choice(pool), rng.choice(["1", "x", "true"])]
     elif r < 0.35:
         n, v = rng.choice(MALFORMED)
         extra = ["malformed", n, v]
+    if route in ("cli", "dump") and (i // len(ROUTES)) % 2 == 1:
+        # every second command-line plan: an unknown name that is an argument of the run itself (walks the list)
+        cli_names = ["debug", "report", "is_simple", "output_file", "gene_db", "profile_name", "sam_path",
+                     "cn_region", "solver", "genome", "reference", "multiple_warn_level"]
+        extra = ["unknown", cli_names[(i // (2 * len(ROUTES))) % len(cli_names)], "x"]
     if extra:
         # the extra entry must be the only one of its name (a dict cannot hold the name twice)
         settings = [x for x in settings if x[0] != extra[1]]
@@ -645,6 +654,10 @@ def run_segment(seg):
                 res["rejected"] = errs[0]
             if crashes and not SIM.stage_calls:
                 res["crash"] = crashes[0]
+            if not errs and not crashes and not SIM.stage_calls and (rec["exc"] or rec["exit"] not in (0, None)):
+                # the command failed before the run proper began (nothing raised inside genotype())
+                res["crash"] = rec["exc"] or {"type": "SystemExit", "aldy": False,
+                                              "msg": f"exit status {rec['exit']}, no stage was reached"}
             observe_stage()
             if route == "dump":
                 # the dump reader resets these four on purpose (sam.py:327-330)
